@@ -89,6 +89,18 @@ func gsxLocal(name string) {
 	f1 := &ast.File{Name: pkgName, Decls: []ast.Decl{d1}}
 	f2 := &ast.File{Name: pkgName, Decls: []ast.Decl{d2}}
 	f12 := &ast.File{Name: pkgName, Decls: []ast.Decl{d1, d2}}
+	// checkers that walk comments get one comment group inside each declaration
+	switch gsxWalkerKind(c) {
+	case gsxWalkPkg + "commentWalker", gsxWalkPkg + "localCommentWalker", gsxWalkPkg + "docCommentWalker":
+		var c1, c2 *ast.CommentGroup
+		gsxrt.Lazy("c1", k, &c1)
+		gsxrt.Lazy("c2", k, &c2)
+		gsxrt.Assume(d1.Pos() < c1.Pos() && c1.End() <= d1.End())
+		gsxrt.Assume(d2.Pos() < c2.Pos() && c2.End() <= d2.End())
+		f1.Comments = []*ast.CommentGroup{c1}
+		f2.Comments = []*ast.CommentGroup{c2}
+		f12.Comments = []*ast.CommentGroup{c1, c2}
+	}
 	ctx.SetFileInfo("x.go", f1)
 	w1 := gsxCopyWarnings(c.Check(f1))
 	ctx.SetFileInfo("x.go", f2)
